@@ -1,10 +1,11 @@
 package main
 
 import (
+	"fmt"
 	"go/ast"
+	"go/constant"
 	"go/token"
 	"go/types"
-	"sort"
 	"strings"
 )
 
@@ -193,7 +194,7 @@ func init() {
 	register("C16.R1", "unordered iteration never reaches the output: every range over a Go map and every typeutil.Map Iterate/Keys/Outputs use in the module is a search, a collect-then-sort, a keyed insert or a diagnostic",
 		func(c *Ctx, r *R) {
 			suppress := map[string]string{
-				"newObjectCache/range p.Imports": "worklist: the order only changes the DFS order in which the import-path → package map is filled (a keyed insert guarded by a visited test)",
+				"newObjectCache/range .Imports": "worklist: the order only changes the DFS order in which the import-path → package map is filled (a keyed insert guarded by a visited test)",
 			}
 			n := 0
 			for _, fi := range c.all {
@@ -206,6 +207,11 @@ func init() {
 						n++
 						r.Need(fi, fi.Name)
 						k := fi.Name + "/range " + exprShort(x.X)
+						if f := fi.selField(x.X); f != nil {
+							if _, isId := ast.Unparen(x.X).(*ast.SelectorExpr).X.(*ast.Ident); isId {
+								k = fi.Name + "/range ." + f.Name() // independent of the local's name
+							}
+						}
 						if why, ok := suppress[k]; ok {
 							// still verify the claimed shape: body only pushes onto a slice
 							cls, _, leaks := fi.classifyUnordered(x.Body)
@@ -498,34 +504,51 @@ func init() {
 				}
 				found := 0
 				f.inspect(f.Decl.Body, func(nd ast.Node) bool {
-					as, ok := nd.(*ast.AssignStmt)
-					if !ok || len(as.Rhs) != 1 {
-						return true
-					}
-					se, ok := ast.Unparen(as.Rhs[0]).(*ast.SliceExpr)
-					if !ok || !isString(f.Info.TypeOf(se.X)) {
+					se, ok := nd.(*ast.SliceExpr)
+					if !ok || !isString(f.Info.TypeOf(se.X)) || se.High != nil || se.Low == nil || !isPathParam(f, se.X) {
 						return true
 					}
 					found++
-					var cs []string
-					for _, g := range f.Guards(as) {
-						if f.isCall(g.Expr, "strings.LastIndex") == nil && !containsCallTo(f, g.Expr, "strings.LastIndex") {
-							continue // conditions that do not concern the vendor component (e.g. the own-package early return)
+					// decision table over the abstract inputs that matter: where the last "vendor/" is
+					// (absent, at 0, further in) and whether the byte before it is '/'
+					var rows []string
+					okG, okL := true, true
+					for _, i := range []int{-1, 0, 3} {
+						for _, slash := range []bool{false, true} {
+							env := vendorEnv{f: f, i: i, prevSlash: slash}
+							strip := true
+							for _, g := range f.Guards(se) {
+								if !env.concerns(g.Expr) {
+									continue // e.g. the own-package early return
+								}
+								if !strip {
+									break // an earlier test already failed: later ones are not evaluated
+								}
+								v, ok := env.evalBool(g.Expr)
+								if !ok {
+									okG = false
+									rows = append(rows, "undecided: "+exprShort(g.Expr))
+									continue
+								}
+								if g.Neg {
+									v = !v
+								}
+								strip = strip && v
+							}
+							want := i != -1 && (i == 0 || slash)
+							if strip != want {
+								okG = false
+							}
+							rows = append(rows, fmt.Sprintf("(at %d, after '/': %v) → strip=%v", i, slash, strip))
+							if want {
+								if lo, ok := env.evalInt(se.Low); !ok || lo != i+len("vendor/") {
+									okL = false
+								}
+							}
 						}
-						s := constSym(f, g.Expr)
-						if g.Neg {
-							s = "!" + s
-						}
-						cs = append(cs, s)
 					}
-					sort.Strings(cs)
-					got := strings.Join(cs, " ∧ ")
-					low := constSym(f, se.Low)
-					const li = `LastIndex(P,"vendor/")`
-					okG := got == "(("+li+"==0)||(P[("+li+"-1)]==47)) ∧ ("+li+"!=-1)"
-					okL := low == "("+li+"+7)"
-					r.Check(okG, f.Name+"/vendor-strip-at-segment-boundary", as.Pos(), "the vendor prefix is removed only when the last \"vendor/\" starts the path or follows '/' — guard: %s", got)
-					r.Check(okL, f.Name+"/vendor-strip-cut", as.Pos(), "the cut is right after that \"vendor/\" — low bound: %s", low)
+					r.Check(okG, f.Name+"/vendor-strip-at-segment-boundary", se.Pos(), "the vendor prefix is removed exactly when the last \"vendor/\" starts the path or follows '/' — decision table: %s", strings.Join(rows, "; "))
+					r.Check(okL, f.Name+"/vendor-strip-cut", se.Pos(), "the cut is right after that \"vendor/\" — low bound: %s", constSym(f, se.Low))
 					return true
 				})
 				r.Check(found == 1, f.Name+"/vendor-strip-site", f.Decl.Pos(), "exactly one path-slicing site (%d)", found)
@@ -631,4 +654,189 @@ func constSym(f *FuncInfo, e ast.Expr) string {
 		return n + "(" + strings.Join(as, ",") + ")"
 	}
 	return types.ExprString(e)
+}
+
+func isPathParam(f *FuncInfo, e ast.Expr) bool {
+	for k := 0; k < 4; k++ {
+		e = ast.Unparen(e)
+		v := f.varOf(e)
+		if v == nil {
+			return false
+		}
+		if f.isParam(v) && isString(v.Type()) {
+			if d := f.deref(e); d != e {
+				e = d // a linked helper's parameter, bound to the caller's argument
+				continue
+			}
+			return true
+		}
+		d := f.deref(e)
+		if d == e {
+			return false
+		}
+		e = d
+	}
+	return false
+}
+
+// vendorEnv evaluates conditions on the position of the last "vendor/" in a
+// path under one abstract input: i = strings.LastIndex(path, "vendor/") and
+// whether path[i-1] is '/'.
+type vendorEnv struct {
+	f         *FuncInfo
+	i         int
+	prevSlash bool
+}
+
+func (v vendorEnv) concerns(e ast.Expr) bool {
+	hit := false
+	ast.Inspect(e, func(nd ast.Node) bool {
+		x, ok := nd.(ast.Expr)
+		if !ok {
+			return true
+		}
+		if v.f.isCall(v.f.deref(x), "strings.LastIndex") != nil {
+			hit = true
+		}
+		switch y := x.(type) {
+		case *ast.IndexExpr:
+			if isPathParam(v.f, y.X) {
+				hit = true
+			}
+		case *ast.SliceExpr:
+			if isPathParam(v.f, y.X) {
+				hit = true
+			}
+		}
+		return true
+	})
+	return hit
+}
+
+func (v vendorEnv) evalInt(e ast.Expr) (int, bool) {
+	e = ast.Unparen(e)
+	if tv, ok := v.f.Info.Types[e]; ok && tv.Value != nil {
+		if n, ok := constantInt(tv.Value); ok {
+			return n, true
+		}
+		return 0, false
+	}
+	switch x := e.(type) {
+	case *ast.Ident:
+		if d := v.f.deref(x); d != ast.Expr(x) {
+			return v.evalInt(d)
+		}
+	case *ast.CallExpr:
+		if v.f.calleeName(x) == "strings.LastIndex" && len(x.Args) == 2 && isPathParam(v.f, x.Args[0]) {
+			if tv, ok := v.f.Info.Types[x.Args[1]]; ok && tv.Value != nil && tv.Value.ExactString() == `"vendor/"` {
+				return v.i, true
+			}
+		}
+	case *ast.BinaryExpr:
+		a, ok1 := v.evalInt(x.X)
+		b, ok2 := v.evalInt(x.Y)
+		if ok1 && ok2 {
+			switch x.Op {
+			case token.ADD:
+				return a + b, true
+			case token.SUB:
+				return a - b, true
+			}
+		}
+	}
+	return 0, false
+}
+
+// prevByteIsSlash recognises path[i-1] compared with '/', and HasSuffix(path[:i], "/").
+func (v vendorEnv) evalBool(e ast.Expr) (bool, bool) {
+	e = ast.Unparen(e)
+	switch x := e.(type) {
+	case *ast.Ident:
+		if d := v.f.deref(x); d != ast.Expr(x) {
+			return v.evalBool(d)
+		}
+	case *ast.UnaryExpr:
+		if x.Op == token.NOT {
+			b, ok := v.evalBool(x.X)
+			return !b, ok
+		}
+	case *ast.CallExpr:
+		if v.f.calleeName(x) == "strings.HasSuffix" && len(x.Args) == 2 {
+			if se, ok := ast.Unparen(x.Args[0]).(*ast.SliceExpr); ok && se.Low == nil && se.High != nil && isPathParam(v.f, se.X) {
+				if hi, ok := v.evalInt(se.High); ok && hi == v.i {
+					if tv, ok := v.f.Info.Types[x.Args[1]]; ok && tv.Value != nil && tv.Value.ExactString() == `"/"` {
+						if v.i < 0 {
+							return false, false // path[:-1] panics
+						}
+						return v.i > 0 && v.prevSlash, true
+					}
+				}
+			}
+		}
+	case *ast.BinaryExpr:
+		switch x.Op {
+		case token.LAND:
+			a, ok := v.evalBool(x.X)
+			if !ok {
+				return false, false
+			}
+			if !a {
+				return false, true
+			}
+			return v.evalBool(x.Y)
+		case token.LOR:
+			a, ok := v.evalBool(x.X)
+			if !ok {
+				return false, false
+			}
+			if a {
+				return true, true
+			}
+			return v.evalBool(x.Y)
+		case token.EQL, token.NEQ, token.LSS, token.LEQ, token.GTR, token.GEQ:
+			// the byte before the match
+			for _, pair := range [][2]ast.Expr{{x.X, x.Y}, {x.Y, x.X}} {
+				if ix, ok := ast.Unparen(pair[0]).(*ast.IndexExpr); ok && isPathParam(v.f, ix.X) {
+					k, ok := v.evalInt(ix.Index)
+					if !ok || k != v.i-1 {
+						return false, false
+					}
+					if k < 0 {
+						return false, false // would index out of range on this input
+					}
+					if c, ok := v.evalInt(pair[1]); ok && c == '/' && (x.Op == token.EQL || x.Op == token.NEQ) {
+						return v.prevSlash == (x.Op == token.EQL), true
+					}
+					return false, false
+				}
+			}
+			a, ok1 := v.evalInt(x.X)
+			b, ok2 := v.evalInt(x.Y)
+			if ok1 && ok2 {
+				switch x.Op {
+				case token.EQL:
+					return a == b, true
+				case token.NEQ:
+					return a != b, true
+				case token.LSS:
+					return a < b, true
+				case token.LEQ:
+					return a <= b, true
+				case token.GTR:
+					return a > b, true
+				case token.GEQ:
+					return a >= b, true
+				}
+			}
+		}
+	}
+	return false, false
+}
+
+func constantInt(v constant.Value) (int, bool) {
+	if v.Kind() != constant.Int {
+		return 0, false
+	}
+	n, ok := constant.Int64Val(v)
+	return int(n), ok
 }
